@@ -163,6 +163,7 @@ static void * ack_signaler(void * a) {
 static void run(int tier, int prog) {
   build(); cur = &P[tier][prog];
   mv_start(cur->W);
+  h_maybe_custom_steal(prog, cur->W);
   h_mutex_init(&m, prog & 1); h_cond_init(&c0, (prog >> 1) & 1); h_cond_init(&c1, prog & 1);
   myth_thread_t th[8]; int nt = 0;
   switch (cur->fam) {
